@@ -231,6 +231,64 @@ def k_invert(base, chk):
                 chk.violation("Scalar.Invert", hit["what"], hit)
 
 
+def k_equal_semantic(base, chk):
+    """Scalar.Equal on the real body, nothing summarised: for reduced operands (the limb arrays are the unique
+    representatives < l) the result is exactly 1 when the limbs agree and exactly 0 otherwise; operands not written"""
+    fname = base.prog.find("Scalar).Equal")
+    k = K.BVK(base, chk, fname, label="Scalar.Equal [whole body]")
+    ST = base.prog.T(E + "Scalar")
+    sl = [k.bv("s[%d]" % i, 64) for i in range(4)]
+    tl = [k.bv("t[%d]" % i, 64) for i in range(4)]
+    for ls in (sl, tl):
+        k.path.pc.append(z3.ULT(z3.Concat(*reversed(ls)), z3.BitVecVal(L, 256)))
+    s = X.Ptr(k.ex.new_obj(k.path, ST, init=[list(sl)]))
+    t = X.Ptr(k.ex.new_obj(k.path, ST, init=[list(tl)]))
+    paths = k.run([s, t])
+    bad = [p for p in paths if p.outcome[0] != "ret"]
+    chk.add(Ob("Scalar.Equal [whole body]: returns on every path (%d)" % len(paths), "unsat" if paths and not bad else "sat", 0, [fname], "BV", detail=str([p.outcome for p in bad][:2])))
+    same = z3.And([a == b for a, b in zip(sl, tl)])
+    for i, p in enumerate(p for p in paths if p.outcome[0] == "ret"):
+        r = p.outcome[1][0]
+        rv = r if not type(r) is int else z3.BitVecVal(r, 64)
+        k.prove(p, "[path %d] returns exactly 1 if the reduced operands are equal, exactly 0 otherwise" % i, z3.If(same, rv == 1, rv == 0))
+        k.prove(p, "[path %d] operands not written" % i, not any(w[0] == "w" and w[1] in (s.obj, t.obj) for w in p.log))
+
+    def replay(models, seed):
+        from sym import native
+        ops, meta = [], []
+        w = lambda ls: "w:" + ",".join(str(int(x)) for x in ls)
+        for m in models:
+            if all("s[%d]" % i in m and "t[%d]" % i in m for i in range(4)):
+                a = [int(m["s[%d]" % i]) for i in range(4)]
+                b = [int(m["t[%d]" % i]) for i in range(4)]
+                for x, y in ((a, b), (b, a)):
+                    ops.append({"op": "S.Equal", "args": ["s", "t"], "init": {"s": w(x), "t": w(y)}})
+                    meta.append((x, y))
+        # word-level patterns: one word differs, two words differ by the same amount, ...
+        import random
+        rng = random.Random(seed)
+        for _ in range(60):
+            a = [rng.randrange(2**64) for _ in range(3)] + [rng.randrange(2**59)]
+            d_ = rng.choice([1, 5, 2**63, rng.randrange(1, 2**59)])
+            b = list(a)
+            for i in rng.sample(range(4), rng.choice([1, 2, 2, 3])):
+                b[i] = (b[i] ^ d_) if i < 3 else (b[i] ^ (d_ % 2**59))
+            ops.append({"op": "S.Equal", "args": ["s", "t"], "init": {"s": w(a), "t": w(b)}})
+            meta.append((a, b))
+        for d_ in (1, 5, 2**20):
+            for pat in ((1, 0, 0, 1), (0, 1, 0, 1), (0, 0, 1, 1), (1, 1, 0, 1), (1, 1, 1, 1), (1, 1, 0, 0)):
+                a = [d_ * e for e in pat]
+                ops.append({"op": "S.Equal", "args": ["s", "t"], "init": {"s": w(a), "t": w([0, 0, 0, 0])}})
+                meta.append((a, [0, 0, 0, 0]))
+        res = native.run_ops("", ops)
+        for (a, b), r in zip(meta, res):
+            want = 1 if a == b else 0
+            if "panic" in r or r.get("int") != want:
+                return dict(what="Scalar.Equal on Montgomery limbs %s vs %s = %s, expected %d" % (a, b, r.get("int", r.get("panic")), want), op="S.Equal", inputs=dict(s=a, t=b))
+        return None
+    k.settle(replay, "Scalar.Equal")
+
+
 def k_equal(base, chk):
     """Scalar.Equal: fiatScalarSub summarised by its contract (BV), Nonzero + fold executed bit-precisely"""
     fname = base.prog.find("Scalar).Equal")
@@ -250,6 +308,10 @@ def k_equal(base, chk):
     s = X.Ptr(k.ex.new_obj(k.path, ST, init=[list(sl)]))
     t = X.Ptr(k.ex.new_obj(k.path, ST, init=[list(tl)]))
     paths = k.run([s, t])
+    if "d" not in info or len(paths) != 1 or paths[0].outcome[0] != "ret":
+        # the body does not go through fiatScalarSub: decide the contract on the whole real body instead
+        chk.extra.setdefault("semantic_fallback", []).append("Scalar.Equal")
+        return k_equal_semantic(base, chk)
     chk.add(Ob("Scalar.Equal: single path", "unsat" if len(paths) == 1 else "sat", 0, [fname], "structure"))
     p = paths[0]
     r = p.outcome[1][0]
